@@ -54,7 +54,8 @@ S_FRAME = "house h\nframer t be active first over\nframe over\n{CMD}\n"
 S_DO = "house h\nframer t be active first f0\nframe f0\n{CMD}\n"
 S_LOGGER = "house h\n{CMD}\n"
 S_LOG = "house h\nlogger lg to /tmp/ioflo_c15/\n{CMD}\nloggee .a.b\n"
-S_SERVER = "house h\ninit .x.y to value 5\n{CMD}\n"
+S_SERVER = ("house h\ninit .x.y to value 5\ninit .cfg.srv with period 0.5\n"
+            "init .cfg.two with period 0.25 prefix \"/tmp/ioflo_c15/for\"\n{CMD}\n")
 S_AUX = ("house h\nframer helper be aux first h0\nframe h0\nframer helper2 be moot first g0\nframe g0\n"
          "framer t be active first f0\nframe f0\n{CMD}\n")
 S_REAR = ("house h\nframer orig be moot first o0\nframe o0\nframer t be active first f0\nframe f1\nframe f0\n{CMD}\n")
@@ -81,8 +82,10 @@ VERBS = {
         "as": [["text"], ["binary"]], "to": [["fname"]], "on": [["update"], ["never"]]}, [[]]),
     "server": ("verb_server", S_SERVER, ["server", "sv"], {
         "at": [["1.0"]], "to": [["/tmp/ioflo_c15/"]], "be": [["inactive"]], "in": [["back"]],
-        "rx": [[":55551"]], "tx": [[":55552"]], "per": [["period", "2.0"], ["stuff", "5"]],
-        "for": [["value", "in", ".x.y"], [".x.y"]]}, [[]]),
+        "rx": [[":55551"], ["localhost:55553"]], "tx": [[":55552"]],
+        # per and for carry DISTINCT keys (same key twice is last-wins by design)
+        "per": [["prefix", "\"/tmp/ioflo_c15/per\""], ["stuff", "5"]],
+        "for": [["period", "in", ".cfg.srv"], ["value", "in", ".x.y"], [".x.y"]]}, [[]]),
     "aux": ("verb_aux", S_AUX, ["aux", "helper2"], {
         "as": [["mine"], ["cl1"]], "via": [[".p"], ["p", "of", "me"], ["p", "of", "framer"]]},
         [[], ["if", "elapsed", ">=", "1.0"]]),
